@@ -407,6 +407,8 @@ def suites_for(pid, rng, tier):
     if pid in ("C13", "C14", "C15"):
         terms = {"C13": ("fe",), "C14": ("tfe", "rcol", "rcol"), "C15": ("fe", "tfe", "col", "rcol")}[pid]
         S.append(("costream", "std", "co", gen.gen_co(rng, 2 * k, "k", terms=terms)))
+        # Vec::into_co_stream() as the source: its trace must equal the trace of the same pipeline over a stream that has every item ready
+        S.append(("costream-vec-source(vs stream source)", "std", "cov", gen.gen_co(rng, ks, "v", terms=terms, allready=True, panic=0.0)))
         return "all", S
     raise SystemExit(f"no suite for {pid}")
 
@@ -418,7 +420,9 @@ def run_lines(exe, args, lines, timeout=900):
 
 
 def run_impl(bins, kind, lines):
-    exe = os.path.join(bins, "co-harness" if kind == "co" else "fc-harness")
+    exe = os.path.join(bins, "co-harness" if kind in ("co", "cov") else "fc-harness")
+    if kind == "cov":
+        lines = [l.replace(" co:", " cov:", 1) for l in lines]
     try:
         out, rc, err = run_lines(exe, [], lines)
     except subprocess.TimeoutExpired:
@@ -458,6 +462,29 @@ def run_model(runner, coacc, kind, cfg, lines, impl):
             if m:
                 rej[m.group(1)] = f"the acceptor rejects event {m.group(2)}: {m.group(3)}"
         return rej, p.stdout.splitlines()[-1] if p.stdout else ""
+    if kind == "cov":       # the "model" of a Vec-source run is the stream-source run of the same pipeline, minus the source's own events
+        bins, _ = build_harness(cfg)
+        ref, err = run_impl(bins, "co", lines)
+        if ref is None:
+            raise SystemExit("stream-source reference run failed: " + err)
+        out = []
+        for l in ref:
+            t = l.split(" ")
+            taken = sum(1 for i, x in enumerate(t) if x.startswith("=I") and i > 0 and t[i - 1].startswith("c0:"))
+            keep, skip = [t[0]], False
+            for x in t[1:]:
+                if x.startswith("c0:"):
+                    skip = True          # the source's poll and its answer
+                    continue
+                if skip and x[0] == "=":
+                    skip = False
+                    continue
+                skip = False
+                if x == "D0":
+                    continue
+                keep.append(x)
+            out.append(" ".join(keep) + f" #taken={taken}")
+        return out, ""
     if kind == "mon":       # monitor-only suite (nests of combinators): there is no model, the implementation's trace is judged by the monitor alone
         return list(impl), ""
     out, rc, err = run_lines(runner, [cfg], lines)
@@ -627,7 +654,7 @@ def decide(pid, tier, seed):
         if bins is None:
             batch_fail.append((sname, cfg, "the harness does not build against the current tree:\n" + err, None))
             continue
-        extra = [c for c in corpus_cases if c.split(" ")[1].startswith("co:") == (kind == "co") and (f" {cfg}#" in c or "#" not in c)]
+        extra = [] if kind in ("cov", "mon") else [c for c in corpus_cases if c.split(" ")[1].startswith("co:") == (kind == "co") and (f" {cfg}#" in c or "#" not in c)]
         cases = [c.split("#")[0].rstrip() for c in extra] + cases if sname.endswith("exhaustive") is False else cases
         stats["configs"].add(cfg)
         impl, err = run_impl(bins, kind, cases)
@@ -668,7 +695,7 @@ def decide(pid, tier, seed):
             if len(stats["samples"]) < 4 and nontriv and idx % 97 == 3:
                 stats["samples"].append(dict(suite=sname, config=cfg, case=case, implementation_trace=a))
             why = None
-            if mon is not None:
+            if mon is not None and kind != "cov":
                 try:
                     cs = Case(case)
                     why = mon(cs, ta)
@@ -683,6 +710,15 @@ def decide(pid, tier, seed):
                     diffs.append((sname, cfg, case, a, model[hp[0]], why))
                 elif why:
                     monfails.append((sname, cfg, case, a, why))
+            elif kind == "cov":
+                # Vec source vs stream source: equal traces, except that the Vec also drops (V) the items the stream run never took
+                b = model[idx]
+                tb = b.split(" ")[1:]
+                taken = int(tb[-1].split("=")[1])
+                tb = tb[:-1]
+                ta2 = [x for x in ta if not (x[0] == "V" and x[1:].isdigit() and int(x[1:]) >= taken)]
+                if ta2 != tb:
+                    diffs.append((sname, cfg, case.replace(" co:", " cov:", 1), a, " ".join([b.split(" ")[0]] + tb), "Vec::into_co_stream() does not behave like a stream source that has every item ready"))
             else:
                 b = model[idx]
                 tb = b.split(" ")[1:]
